@@ -5,6 +5,9 @@ import Driver.VmDrv
 import Driver.FfiDrv
 import Driver.LedgerDrv
 import Driver.NumDrv
+import Driver.VerDrv
+import Driver.DiagDrv
+import Driver.TcDrv
 
 def main (args : List String) : IO UInt32 := do
   match args with
@@ -15,4 +18,7 @@ def main (args : List String) : IO UInt32 := do
   | ["ffi"] => FfiDrv.main; return 0
   | ["ledger"] => LedgerDrv.main; return 0
   | ["num"] => NumDrv.main; return 0
+  | "verify" :: rest => VerDrv.main rest
+  | ["diag"] => DiagDrv.main; return 0
+  | ["tc"] => TcDrv.main; return 0
   | _ => IO.eprintln "usage: nmdrv gc|..."; return 2
